@@ -31,18 +31,22 @@ rundemo mutated; MUT=$?
 git checkout -q -- .
 echo "confirm: build=$BUILD suite=$SUITE demo_with_mutation=$MUT(expect!=0) demo_clean=$CLEAN(expect 0)"
 cp "$M/patch.diff" "$OUT/patch.diff"; cp "$M/demo_test.go" "$OUT/demo_test.go.txt"; cp "$M/README.md" "$OUT/README.agent.md" 2>/dev/null
-# run our checks against the mutation applied to /repo
-cd /repo
-if [ -n "$(git status --porcelain)" ]; then echo "/repo not clean"; exit 2; fi
+# run our checks against the mutation applied on top of /repo's HEAD, in the scratch worktree
+# (VERIF_REPO), leaving /repo and /verif/evidence untouched
+BASE=$(git rev-parse HEAD)
+HEAD_REPO=$(git -C /repo rev-parse HEAD)
+git checkout -q --detach "$HEAD_REPO" || { echo "cannot move worktree to /repo HEAD"; exit 2; }
 if ! git apply "$OUT/patch.diff"; then echo "patch does not apply to /repo HEAD"; APPLY=1; else APPLY=0; fi
 RES=""
+VOUT=/tmp/vout/$P-$K; mkdir -p "$VOUT"
 if [ $APPLY = 0 ]; then
   for c in $CHECKS; do
-    (cd /verif && timeout 1800 ./check $c --tier quick >"$OUT/check.$c.log" 2>&1); rc=$?
+    (cd /verif && VERIF_REPO="$WT" VERIF_OUT="$VOUT" timeout 1800 ./check $c --tier quick >"$OUT/check.$c.log" 2>&1); rc=$?
     RES="$RES $c=$rc"
   done
-  git checkout -q -- .
 fi
+git checkout -q -- . ; git checkout -q --detach "$BASE"
+rm -rf "$VOUT"
 echo "checks:$RES"
 python3 - "$P" "$K" "$BUILD" "$SUITE" "$MUT" "$CLEAN" "$RES" <<'PY'
 import json,sys,os
